@@ -362,6 +362,30 @@ pub fn check_un_direct(f: fn(V) -> V, op: U) {
     kani::cover!(true, "all 6 cells executed");
 }
 
+/// The six comparison operators of the table are closures over the value type's own `PartialEq` / `PartialOrd`
+/// (`|a, b| Val::Bool(a < b)`); the same closures over the real trait implementations are checked here without the
+/// table, for every operand-kind pair of the group.
+fn cmp_fn(op: B) -> fn(V, V) -> V {
+    match op {
+        B::Eq => |a, b| Val::Bool(a == b),
+        B::Ne => |a, b| Val::Bool(a != b),
+        B::Lt => |a, b| Val::Bool(a < b),
+        B::Le => |a, b| Val::Bool(a <= b),
+        B::Gt => |a, b| Val::Bool(a > b),
+        _ => |a, b| Val::Bool(a >= b),
+    }
+}
+
+pub fn check_cmp_direct(group: u8) {
+    run_bin_group(cmp_fn(B::Eq), B::Eq, group);
+    run_bin_group(cmp_fn(B::Ne), B::Ne, group);
+    run_bin_group(cmp_fn(B::Lt), B::Lt, group);
+    run_bin_group(cmp_fn(B::Le), B::Le, group);
+    run_bin_group(cmp_fn(B::Gt), B::Gt, group);
+    run_bin_group(cmp_fn(B::Ge), B::Ge, group);
+    kani::cover!(true, "all six comparisons on all cells of the group executed");
+}
+
 fn run_bin_group(f: fn(V, V) -> V, op: B, group: u8) {
     match group {
         0 => {
